@@ -886,12 +886,16 @@ func genStubOrigin(r *Run, g *originGen) *stubOrigin {
 	if o.multi {
 		o.multiURL = mkURL(scheme + host + dir + "index.m3u8" + q)
 		for i, st := range o.streams {
-			ref := st.name + ".m3u8"
+			// the media playlists need not sit beside the multivariant playlist, nor beside each other: every URI of
+			// the multivariant playlist is relative to the multivariant playlist's URL
+			sub := Pick(T, "", "", "", "v/", "renditions/a/")
+			ref := sub + st.name + ".m3u8"
 			if q != "" && T.Chance(1, 2) {
 				ref += q
-			} else if q != "" {
+				st.plURL = mkURL(scheme + host + dir + sub + st.name + ".m3u8" + q)
+			} else {
 				// the playlist URL carries no query then
-				st.plURL = mkURL(scheme + host + dir + st.name + ".m3u8")
+				st.plURL = mkURL(scheme + host + dir + sub + st.name + ".m3u8")
 			}
 			st.rendition = &mvRendition{Type: "AUDIO", GroupID: "aud", Name: fmt.Sprintf("track %d", i), URI: ref, HasURI: true}
 			if i > 0 {
